@@ -31,7 +31,7 @@ func (sa *StructAccessor) Set(key string, value interface{}) error {
 	newVal := reflect.ValueOf(value)
 
 	// set directly if type matches
-	if newVal.Kind() == field.Kind() {
+	if newVal.IsValid() && newVal.Type().AssignableTo(field.Type()) {
 		field.Set(newVal)
 		return nil
 	}
